@@ -555,6 +555,9 @@ func (f *g2lFn) tupleRhs(x *ast.AssignStmt) string {
 	case *ast.CallExpr:
 		return f.exprNB(r)
 	case *ast.TypeAssertExpr:
+		if s, ok := f.typeAssertEnv(x, r); ok { // go2lean_env.go
+			return s
+		}
 		if !f.g.strOn() || len(x.Lhs) != 2 || r.Type == nil {
 			break
 		}
